@@ -109,10 +109,15 @@ def _kwargs(d):
     return kw
 
 
-def _run(ps, d, pos, w, nthread, pos2=None, w2=None):
+def _run(ps, d, pos, w, nthread, pos2=None, w2=None, alias=False):
     with warnings.catch_warnings():
         warnings.simplefilter('ignore')
-        return call_repo(ps.calc_power, pos.copy(), d['box'], w=None if w is None else w.copy(), pos2=None if pos2 is None else pos2.copy(), w2=None if w2 is None else w2.copy(), nthread=nthread, **_kwargs(d))
+        p1 = pos.copy()
+        w1 = None if w is None else w.copy()
+        if alias:
+            # "passing the same particles as the second field": the very same array objects, as a caller naturally would
+            return call_repo(ps.calc_power, p1, d['box'], w=w1, pos2=p1, w2=w1, nthread=nthread, **_kwargs(d))
+        return call_repo(ps.calc_power, p1, d['box'], w=w1, pos2=None if pos2 is None else pos2.copy(), w2=None if w2 is None else w2.copy(), nthread=nthread, **_kwargs(d))
 
 
 EXACT = ('N_mode', 'N_mode_poles', 'k_min', 'k_max', 'k_mid', 'mu_min', 'mu_max', 'mu_mid')
@@ -167,6 +172,8 @@ def run_case(d):
         cls.append('threads-differ')
     # cross == auto
     _compare(base, _run(ps, d, pos, w, d['nthread'], pos2=pos, w2=w), 'cross=auto', floor=floor)
+    if d['seed'] % 2 == 0:
+        _compare(base, _run(ps, d, pos, w, d['nthread'], alias=True), 'cross=auto:same-array-object', floor=floor)
     # bookkeeping independent of the particles
     q, wq = _particles(dict(d, n=max(1, d['n'] // 2 + 1), dist='uniform'), seed_shift=17)
     _compare(base, _run(ps, d, q, wq, d['nthread']), 'other-particles', floats=False)
